@@ -49,10 +49,18 @@ FILES = {
 
 
 def sh(cmd, cwd=None, env=None, timeout=3600):
+    # own process group, killed as a whole on timeout (a mutant may loop forever inside a check's child)
+    import signal
+    p = subprocess.Popen(cmd, shell=True, cwd=cwd, env=env or ENV, stdout=subprocess.PIPE, stderr=subprocess.STDOUT, start_new_session=True)
     try:
-        p = subprocess.run(cmd, shell=True, cwd=cwd, env=env or ENV, stdout=subprocess.PIPE, stderr=subprocess.STDOUT, timeout=timeout)
-        return p.returncode, p.stdout.decode(errors="replace")
+        o, _ = p.communicate(timeout=timeout)
+        return p.returncode, o.decode(errors="replace")
     except subprocess.TimeoutExpired:
+        try:
+            os.killpg(p.pid, signal.SIGKILL)
+        except ProcessLookupError:
+            pass
+        p.wait()
         return 124, "timeout"
 
 
@@ -169,12 +177,16 @@ def run_one(idx, mu):
         res["outcome"] = "survived"
         for c in FILES[mu["file"]]:
             t0 = time.time()
-            rc, o = sh(f"{ROOT}/bin/check {c} quick", env=env, timeout=2400)
+            rc, o = sh(f"{ROOT}/bin/check {c} quick", env=env, timeout=900)
             sigs = [l.strip()[len("signature: "):] for l in o.splitlines() if l.strip().startswith("signature: ")]
             res["checks"][c] = dict(exit=rc, signatures=sigs[:3], secs=round(time.time() - t0, 1))
             if rc == 1:
                 res["outcome"] = "killed"
                 res["killed_by"] = c
+                break
+            if rc == 124:
+                res["outcome"] = "killed"
+                res["killed_by"] = c + "(hang)"
                 break
             if rc not in (0, 1):
                 res["checks"][c]["tail"] = o[-300:]
@@ -230,7 +242,7 @@ def recheck(jobs):
             for c in ALL:
                 if c in saved:
                     continue
-                rc, o = sh(f"{ROOT}/bin/check {c} quick", env=env, timeout=2400)
+                rc, o = sh(f"{ROOT}/bin/check {c} quick", env=env, timeout=900)
                 sigs = [l.strip()[len("signature: "):] for l in o.splitlines() if l.strip().startswith("signature: ")]
                 res["checks"][c] = dict(exit=rc, signatures=sigs[:3])
                 if rc != 0:
@@ -261,6 +273,17 @@ def main():
         if "--jobs" in args:
             j = int(args[args.index("--jobs") + 1])
         return recheck(j)
+    if "--one" in args:
+        # --one FILE:LINE[:op substring] [--checks C07,C08]: one mutant against the named checks (all of them by default)
+        spec = args[args.index("--one") + 1].split(":", 2)
+        checks = args[args.index("--checks") + 1].split(",") if "--checks" in args else ALL
+        cs = [c for c in candidates(spec[0], open(os.path.join("/repo", spec[0])).read()) if c["line"] == int(spec[1]) and (len(spec) < 3 or spec[2] in c["op"])]
+        os.makedirs("/tmp/vamut", exist_ok=True)
+        for k, mu in enumerate(cs):
+            FILES[mu["file"]] = checks
+            r = run_one(900000 + os.getpid() * 10 + k, mu)
+            print(json.dumps(r, indent=1))
+        return 0
     jobs, per_file, seed, only, list_only = 4, 12, 1, None, False
     while args:
         a = args.pop(0)
